@@ -5,7 +5,7 @@ from __future__ import print_function
 from __future__ import unicode_literals
 
 import os
-from glob import glob
+from glob import glob, escape
 import numpy as np
 import scipy
 from scipy.special import eval_legendre
@@ -647,6 +647,6 @@ def basis_dir_cleanup(basis_dir=''):
     if basis_dir is None:
         return
 
-    files = glob(os.path.join(basis_dir, 'linbasex_basis_*.npy'))
+    files = glob(os.path.join(escape(basis_dir), 'linbasex_basis_*.npy'))
     for fname in files:
         os.remove(fname)
